@@ -12,7 +12,7 @@ LEVEL = "exploration"
 TECHNIQUE = "bounded-exhaustive enumeration of every input sequence (all multisets in all orders) over a colliding-key record alphabet through run_sort, against a stable-sort reference"
 RULE = (
     "graphs: a two-chromosome bubble chain tagged (i) by the real order_gfa (pipeline composition) and (ii) by the harness with an extra "
-    "node carrying BO=NO=-1; records: a 13-record alphabet whose keys collide pairwise in every prefix of (BO, NO, start) - equal BO / "
+    "node carrying BO=NO=-1; records: a 15/16-record alphabet whose keys collide pairwise in every prefix of (BO, NO, start) - equal BO / "
     "different NO, equal (BO,NO) / different start, exact ties, a reverse-anchored record tying with a forward one, one untagged key, a "
     "second chromosome; inputs: every sequence of <=N records (N=4 quick, 5 thorough), i.e. every multiset in every order. "
     "evaluations = sort runs; non-trivial = sequences of >=2 records that are not already in sorted order or contain a tie."
@@ -33,7 +33,7 @@ NSHARD = {"quick": 16, "thorough": 48}
 
 
 def bounds(tier):
-    return {"max_records_per_file": 4 if tier == "quick" else 5, "alphabet": 13, "graphs": 2}
+    return {"max_records_per_file": 4 if tier == "quick" else 5, "alphabet": 15, "graphs": 2}
 
 
 def alphabet(g, c1, c2, untagged):
@@ -56,9 +56,12 @@ def alphabet(g, c1, c2, untagged):
         ("K", f">{s1}>{a}", 10, 12),
         ("L", f">{s2}<{sc1[2]}", 1, 3),  # as many scaffold nodes forward as reversed: anchored on the first node
         ("M", f">{sc1[2]}", 0, 2),  # sits between the two possible anchors of L
+        # three scaffold nodes, the first one in the minority orientation: anchored on the LAST node (majority reversed)
+        ("O", f">{sc1[1]}<{sc1[3]}<{sc1[2]}", 0, g.segs[sc1[1]].LN + g.segs[sc1[3]].LN + g.segs[sc1[2]].LN - 1),
     ]
     if untagged:
         recs.append(("H", ">u1", 2, 4))
+        recs.append(("N", ">n70k", 0, 2))  # NO = 70001: does not fit 16 bits
     else:
         recs.append(("H", f">{sc2[-1]}", 1, 2))
     return recs
